@@ -77,8 +77,8 @@ inline std::string g_scheme(Tape &t) {
 }
 
 inline std::string g_dec_octet(Tape &t) {
-  static const int v[] = {0, 1, 9, 10, 99, 100, 127, 199, 200, 249, 250, 255};
-  if (t.chance(2, 3)) return std::to_string(v[t.below(12)]);
+  static const int v[] = {0, 1, 9, 10, 99, 100, 127, 199, 200, 249, 250, 255, 25, 26, 2};
+  if (t.chance(2, 3)) return std::to_string(v[t.below(15)]);
   return std::to_string(t.below(256));
 }
 inline std::string g_ipv4(Tape &t) {
@@ -149,7 +149,7 @@ inline std::string g_userinfo(Tape &t) {
   return g_run(t, 6, ":", true);
 }
 inline std::string g_port(Tape &t) {
-  static const std::vector<std::string> pool = {"80", "", "0", "8080", "65536", "007", "1"};
+  static const std::vector<std::string> pool = {"80", "", "0", "8080", "65536", "007", "1", "4294967295", "4294967296", "12345678901", "99999999999999999999"};
   return t.pick(pool);
 }
 struct GenAuth { bool hasUser = false; std::string user, host; bool hasPort = false; std::string port; int hostKind = 1; };
@@ -174,9 +174,15 @@ inline std::string auth_text(const GenAuth &a) {
 enum SegFlavor { SEG_ANY = 0, SEG_NOPCTDOT = 1 /* no percent-encoded dot segments (C09) */ };
 inline std::string g_segment(Tape &t, int flavor = SEG_ANY) {
   static const std::vector<std::string> vocab = {"a", "", ".", "..", "b", "c", "a:b", "%2e", "%2E%2e", "%41", "%7e",
-                                                 "%3a", ";p", "@", "x.y", "..a", ".%2E", "d:", "%2F", ":", "1:2", "%7E:x", "_k:v"};
+                                                 "%3a", ";p", "@", "x.y", "..a", ".%2E", "d:", "%2F", ":", "1:2", "%7E:x", "_k:v", ".a", "..."};
   static const std::vector<std::string> vocab_nopctdot = {"a", "", ".", "..", "b", "c", "a:b", "%41", "%7e", "%3a",
-                                                          ";p", "@", "x.y", "..a", "d:", "%2F", "e", ":", "1:2", "_k:v"};
+                                                          ";p", "@", "x.y", "..a", "d:", "%2F", "e", ":", "1:2", "_k:v", ".a", "..."};
+  if (g_scale() > 1 && t.chance(1, 8)) {
+    static const int totals[] = {255, 256, 257, 258, 259, 512, 513, 514};
+    std::string pre = t.coin() ? "." : "..";
+    int total = totals[t.below(8)];
+    return pre + std::string((size_t)total - pre.size(), 'a');
+  }
   if (t.chance(5, 6)) return t.pick(flavor == SEG_NOPCTDOT ? vocab_nopctdot : vocab);
   std::string s = g_run(t, 6, ":@", flavor != SEG_NOPCTDOT);
   return s;
@@ -260,12 +266,13 @@ inline std::string g_ip6_body(Tape &t) {
     if (i + 1 < k) s += ':';
   }
   if (t.chance(1, 3)) {
-    static const std::vector<std::string> oct = {"0", "9", "10", "99", "100", "199", "249", "250", "255", "256", "260", "300", "01", "00", ""};
+    static const std::vector<std::string> oct = {"0", "9", "10", "99", "100", "199", "249", "250", "255", "256", "260", "300", "01", "00", "",
+                                                 "25", "A1", "1A", "F", "f0", "999"};  // hex-looking and boundary "octets"
     int n = t.chance(4, 5) ? 4 : t.range(1, 5);
     if (!s.empty() && s.back() != ':') s += ':';
     for (int i = 0; i < n; i++) { if (i) s += '.'; s += t.pick(oct); }
   }
-  if (t.chance(1, 10)) s.insert(t.below((uint32_t)s.size() + 1), 1, ":."[t.below(2)]);
+  if (t.chance(1, 10)) s.insert(t.below((uint32_t)s.size() + 1), 1, ":.%"[t.below(3)]);
   return s;
 }
 
@@ -456,6 +463,8 @@ inline void g_source_base(Tape &t, GenUri *S, GenUri *B, int *klass, int flavor 
   int nb = t.range(0, 4);
   std::vector<std::string> bs;
   for (int i = 0; i < nb; i++) bs.push_back(seg());
+  // long mode: in a third of the cases the base lies 250-300 directories deep (counters of "../" that are narrower than int)
+  if (g_scale() > 1 && t.chance(1, 3)) { int deep = t.range(250, 300); for (int i = 0; i < deep; i++) bs.push_back(i % 7 ? "a" : "b"); }
   bool brooted = b.hasAuth ? true : t.chance(3, 4);
   auto fixfirst = [&](std::vector<std::string> &v, bool rooted, bool hasAuth) {
     if (v.empty()) return;
